@@ -402,7 +402,14 @@ theorem load_serialized_compressed (K : ScriptCompress.KeyOps) (hK : K.Sound) (H
     CFG.AllBalances.UseMapCnt is assigned only in InitMaps and LoadBalances, from that field; the path of the
     removing callback calls no standard-library search that assumes a SORTED slice (slices.BinarySearch*, sort.Search*,
     sort.Find): the model finds the entry to remove by membership, and an entry list restored from the balances cache is in arbitrary order
-    (`shrunk_map_reloads_as_list_in_any_order`). -/
+    (`shrunk_map_reloads_as_list_in_any_order`); the conditions (any operator) on the callbacks' paths depend only on the
+    record's outputs (presence, script, value), the index's own tables and records, the script classification, the value in
+    force and, when adding, the list->map threshold — on no other variable of the package and on nothing else imported from
+    client/... (node state such as `common.BlockChainSynchronized`, configuration), functions / constants of lib/... and the
+    standard library not being listed; `common.AllBalMinVal()` returns the atomic load of the variable and nothing else.
+    WHAT THE FACTS DO NOT PIN: the bodies of the functions named (what `Script2Idx` computes, what is done with a value once
+    read — that is the correspondence run's part), state reached through a function / method of lib/... or through a
+    function value, and anything outside client/common and client/wallet. -/
 theorem model_matches_source_facts :
     Gen.WalletCfgFacts.minValWriters = ["ApplyBalMinVal"] ∧
     Gen.WalletCfgFacts.minValStored = ["CFG.AllBalances.MinValue"] ∧
@@ -417,7 +424,15 @@ theorem model_matches_source_facts :
     Gen.WalletCfgFacts.walletReadsCfgMinValue = [] ∧
     Gen.WalletCfgFacts.useMapCntWriters = ["InitMaps", "LoadBalances"] ∧
     Gen.WalletCfgFacts.useMapCntSources = ["int(common.Get(&common.CFG.AllBalances.UseMapCnt))"] ∧
-    Gen.WalletCfgFacts.delPathSortedSearches = [] :=
+    Gen.WalletCfgFacts.delPathSortedSearches = [] ∧
+    Gen.WalletCfgFacts.addPathConditionsDependOn =
+      ["<useMapCnt>", "OneAllAddrBal", "OneAllAddrBal.unsp", "OneAllAddrBal.unspMap", "Script2Idx()", "[]byte", "allBalances",
+       "allBalances.unsp", "allBalances.unspMap", "common.AllBalMinVal()", "utxo.UtxoRec.Outs", "utxo.UtxoRec.Outs.PKScr",
+       "utxo.UtxoRec.Outs.Value"] ∧
+    Gen.WalletCfgFacts.delPathConditionsDependOn =
+      ["Script2Idx()", "[]bool", "[]byte", "allBalances", "allBalances.unsp", "allBalances.unspMap", "common.AllBalMinVal()",
+       "utxo.UtxoRec.Outs", "utxo.UtxoRec.Outs.PKScr", "utxo.UtxoRec.Outs.Value"] ∧
+    Gen.WalletCfgFacts.minValGetterReturns = ["atomic.LoadUint64(&<minVal>)"] :=
   source_facts
 
 /-- A config change landing DURING the build of the index is ignored until the next build: for ANY schedule `chg` of
@@ -562,29 +577,52 @@ theorem reload_is_cache_roundtrip (um : Nat) (m : List (Nat × Bal)) (ord : Nat 
 /-! ### block connections in every sync state (Model.BalancesBlock) -/
 
 /-- Source facts (regenerated from /repo/lib/utxo on every run by go/cmd/gen_c17/guards.go) behind the block layer: WHAT
-    DECIDES WHETHER lib/utxo CALLS THE INDEX CALLBACKS. Per entry point through which a call site is reached, the
-    quantities the conditions guarding the call depend on (canonical form: field paths rooted in the type of the receiver /
-    parameter; locals, parameters of closures and of non-entry functions resolved to what the call chain passes):
-    through CommitBlockTxs, `CB.NotifyTxAdd(rec)` depends on the callback being installed and on the block's AddList,
-    `CB.NotifyTxDel(rec, outs)` on the callback being installed, the block's DeledTxs and the stored record being the one
-    named by the txid; through UndoBlockTxs additionally on the undo file being readable (it panics otherwise). Nothing
-    depends on `BlockChanges.Height`, `BlockChanges.LastKnownHeight`, `UnspentDB.UnwindBufLen`, `BlockChanges.UndoData`
-    or a property of the record: `connectBlock` runs the callbacks in every sync state. -/
+    DECIDES WHETHER lib/utxo CALLS THE INDEX CALLBACKS, WHAT IT HANDS TO THEM, AND WHERE THE INSTALLED CALLBACKS CAN CHANGE.
+    Canonical form: field paths rooted in the type of the receiver / parameter; a local that is defined once stands for its
+    definition, any other local for EVERY value written to it and the conditions around those writes; parameters of closures
+    and of non-entry functions stand for what the call chain passes, a call of a non-entry function for what it returns and
+    every condition it tests; per entry point through which a call site is reached. Guards = the conditions of the if / for /
+    switch statements around the call and every condition inside an earlier statement of an enclosing block that contains (at
+    any depth) a return / goto / panic / break / continue leaving it. Read: through CommitBlockTxs, `CB.NotifyTxAdd(rec)`
+    depends on the callback being installed and on the block's AddList, and is handed a record of the AddList;
+    `CB.NotifyTxDel(rec, outs)` depends on the callback being installed, the block's DeledTxs and the stored record being the
+    one named by the txid, and is handed the stored record (decoded by NewUtxoRec) and the block's mask; through UndoBlockTxs
+    additionally on the undo file being readable and on what is read from it (the callback is handed the record read back),
+    the deletion on the block's transactions (mask: all outputs). The callbacks are assigned in one place, NewUnspentDb, from
+    the options. In these sets there is no `BlockChanges.Height`, `BlockChanges.LastKnownHeight`, `UnspentDB.UnwindBufLen`,
+    `BlockChanges.UndoData` and no field of the record: `connectBlock` runs the callbacks in every sync state.
+    WHAT THE FACT DOES NOT PIN: it is a may-depend set computed from the syntax of package lib/utxo only. It does not see
+    what the entry points named with `()` (NewUtxoRec, FullUtxoRec) or functions of other packages compute, state reached
+    through a function value, an interface method or reflection, a change of the callbacks or of a guard made OUTSIDE lib/utxo
+    (client/…: covered only by the correspondence run), or an edit that keeps the sets but changes the expression (a guard
+    `!= nil` turned into `== nil`, a different record of the same AddList). Such edits are the correspondence run's part. -/
 theorem callbacks_guarded_by_installation_only :
     Gen.UtxoNotifyFacts.notifyAddGuards =
       [("UnspentDB.CommitBlockTxs", ["BlockChanges.AddList", "UnspentDB.CB.NotifyTxAdd"]),
-       ("UnspentDB.UndoBlockTxs", ["UnspentDB.CB.NotifyTxAdd", "UnspentDB.LastBlockHeight", "UnspentDB.dir_undo",
-          "fmt.Sprint()", "os.ReadFile()"])] ∧
+       ("UnspentDB.UndoBlockTxs", ["FullUtxoRec()", "UnspentDB.CB.NotifyTxAdd", "UnspentDB.LastBlockHeight", "UnspentDB.dir_undo",
+          "btc.VLen()", "fmt.Sprint()", "os.ReadFile()"])] ∧
     Gen.UtxoNotifyFacts.notifyDelGuards =
       [("UnspentDB.CommitBlockTxs", ["BlockChanges.DeledTxs", "UnspentDB.CB.NotifyTxDel", "UnspentDB.HashMap", "bytes.Equal()"]),
        ("UnspentDB.UndoBlockTxs", ["UnspentDB.CB.NotifyTxDel", "UnspentDB.HashMap", "btc.Block.Txs", "btc.Block.Txs.Hash.Hash",
-          "bytes.Equal()"])] :=
+          "bytes.Equal()"])] ∧
+    Gen.UtxoNotifyFacts.notifyAddArgs =
+      [("UnspentDB.CommitBlockTxs", ["BlockChanges.AddList"]),
+       ("UnspentDB.UndoBlockTxs", ["FullUtxoRec()", "UnspentDB.LastBlockHeight", "UnspentDB.dir_undo", "btc.VLen()",
+          "fmt.Sprint()", "os.ReadFile()"])] ∧
+    Gen.UtxoNotifyFacts.notifyDelArgs =
+      [("UnspentDB.CommitBlockTxs", ["BlockChanges.DeledTxs", "NewUtxoRec()", "UnspentDB.HashMap"]),
+       ("UnspentDB.UndoBlockTxs", ["NewUtxoRec()", "UnspentDB.CB.NotifyTxDel", "UnspentDB.HashMap", "btc.Block.Txs",
+          "btc.Block.Txs.TxOut"])] ∧
+    Gen.UtxoNotifyFacts.callbackWrites = ["NewUnspentDb: UnspentDB.CB = {NewUnspentOpts.CB}"] :=
   notify_facts
 
 /-- "… after EVERY block connection": a block is connected with the same effect on the unspent set AND on the index
     whatever the node's sync state — its height, the height of the best known header (0, at the tip, 144 ahead, exactly
     UnwindBufLen ahead, further: the node is "syncing" and keeps no undo data for the block), the unwind buffer length.
-    Together with `callbacks_guarded_by_installation_only` (the source has no guard that could make it otherwise). -/
+    DEFINITIONAL (`rfl`): the model's `connectBlock` never reads `height` / `lastKnown`; the theorem only records that
+    modelling decision. That the CODE behaves so is not proved here: it rests on the may-depend facts of
+    `callbacks_guarded_by_installation_only` (with the limits stated there) and on the correspondence run, which connects
+    blocks 1 block … the whole uint32 range beyond the UnwindBufLen boundary with the index on. -/
 theorem connect_tells_index_in_every_sync_state (H : Bytes → Nat) (s : State) (b : BlockCh) (height lastKnown : Nat) :
     connectBlock H s (b.inState height lastKnown) = connectBlock H s b :=
   connectBlock_inState H s b height lastKnown
@@ -596,7 +634,10 @@ theorem connect_preserves_in_every_sync_state (H : Bytes → Nat) (s : State) (b
   inv_connectBlock b h ha
 
 /-- Undo data is kept exactly for the blocks connected at most `unwind` blocks behind the best known header (uint32
-    arithmetic of chain.commitTxs); `lastKnown = 0` (feature not used) always keeps it. -/
+    arithmetic of chain.commitTxs); `lastKnown = 0` (feature not used) always keeps it. Unfolds the definition of `keepsUndo`
+    (what the oracle's `keepundo` answers and the harness compares with the undo file the real code leaves); `keepsUndo` occurs
+    in no statement about the index: a `.disconnect` of a block that kept no undo data is not excluded by `AdmissibleRun` — the
+    model's disconnect carries its own undo records — and the real node cannot perform it (UndoBlockTxs panics). -/
 theorem undo_kept_iff_not_far_behind (unwind : Nat) (b : BlockCh) :
     (keepsUndo unwind b = true ↔ b.lastKnown ≤ (b.height + unwind) % 2 ^ 32) ∧
     (farBehind unwind b = true ↔ (b.height + unwind) % 2 ^ 32 < b.lastKnown) ∧
@@ -611,7 +652,8 @@ theorem undo_kept_iff_not_far_behind (unwind : Nat) (b : BlockCh) :
     and best-known-header height: at the tip, catching up, far behind), blocks disconnected, the index switched on / off /
     restarted through the cache in between. While the index is on, for every address GetAllUnspent is duplicate-free, is
     exactly the projection of the unspent set (outputs ≥ min whose script maps to the address's key, with the right
-    txid / vout / value / height / coinbase flag), and the total is their sum. -/
+    txid / vout / value / height / coinbase flag), and the total is their sum. This is `balances_eq_projection_keyed` through
+    `flat` (a block history IS a record history: `runB_eq_run`); it adds no proof content beyond it. -/
 theorem balances_eq_projection_block_histories (H : Bytes → Nat) (h : List BEv)
     (hadm : AdmissibleRun H State.init (flat h)) (a : Addr) (hon : (runB H State.init h).on = true) :
     let s := runB H State.init h
@@ -814,4 +856,55 @@ example : getAllUnspent exH (runB exH State.init (syncHist ++ [.connect syncB2])
     aget (exAddr.idx, exH exAddr.payload) (runB exH State.init (syncHist ++ [.connect syncB2])).bal = none := by decide +kernel
 example : runB exH State.init [.ctl (.enable 5 2), .connect (syncB1.inState 6 6)] = runB exH State.init syncHist := rfl
 
+/-! JOINT instance of the central theorem `balances_eq_projection_hash_inj`: ALL its hypotheses at once, on one history, with a
+    hash that is not constant on the payloads in play (`jH` = byte sum: 20 for `exAddr`'s payload, 40 for the other P2WPKH
+    payload) — two P2WPKH addresses, a P2SH script carrying exAddr's 20 bytes (other address type: no clash), an unrecognised
+    script, a coinbase record; connect, spend two outputs, disconnect (undoDel + re-add), spend one again, switch the index off
+    and on with another minimum. `hHinj` is discharged output by output of the final unspent set. -/
+def jH : Bytes → Nat := fun b => b.foldl (fun a x => a + x.toNat) 0
+def jScrB : Bytes := [0x00, 0x14] ++ List.replicate 20 2
+def jScrSH : Bytes := [0xa9, 0x14] ++ List.replicate 20 1 ++ [0x87]
+def jOutB : Out := { value := 20, script := jScrB }
+def jOutSH : Out := { value := 7, script := jScrSH }
+def jOut4 : Out := { value := 6, script := exScr }
+def jRec : Rec := { txid := List.replicate 32 8, inBlock := 6, coinbase := true, outs := [some exOut0, some jOutB, some jOutSH, some exOut2, some jOut4] }
+def jRecEnd : Rec := { txid := List.replicate 32 8, inBlock := 6, coinbase := true, outs := [some exOut0, some jOutB, some jOutSH, none, some jOut4] }
+def jEvs : List Ev := [.enable 5 2, .add jRec, .del jRec.txid [false, false, false, true, true],
+  .undoDel jRec.txid 5, .add jRec, .del jRec.txid [false, false, false, true, false], .disable, .enable 4 0]
+
+example :
+    let s := run jH State.init jEvs
+    (getAllUnspent jH s exAddr).Nodup ∧
+    (∀ x, x ∈ getAllUnspent jH s exAddr ↔ Pays s.cfg.min s.utxo exAddr x) ∧
+    total jH s exAddr = sumValues (getAllUnspent jH s exAddr) := by
+  apply balances_eq_projection_hash_inj jH jEvs
+  · refine ⟨trivial, ?_, trivial, trivial, ?_, trivial, trivial, trivial, trivial⟩ <;> (show aget _ _ = none) <;> decide +kernel
+  · decide +kernel
+  · decide +kernel
+  · decide +kernel
+  · intro k r j o p hr ho hf hH
+    have jEvs_utxo : (run jH State.init jEvs).utxo = [(jRec.key, jRecEnd)] := by decide +kernel
+    rw [jEvs_utxo] at hr
+    simp only [aget] at hr
+    split at hr
+    · cases hr
+      match j, ho with
+      | 0, ho => cases ho; have : scriptForm exOut0.script = some (2, List.replicate 20 1) := by decide +kernel
+                 rw [this] at hf; cases hf; rfl
+      | 1, ho => cases ho
+                 have : scriptForm jOutB.script = some (2, List.replicate 20 2) := by decide +kernel
+                 rw [this] at hf; cases hf
+                 exact absurd hH (by decide +kernel)
+      | 2, ho => cases ho
+                 have : scriptForm jOutSH.script = some (1, List.replicate 20 1) := by decide +kernel
+                 rw [this] at hf; cases hf
+      | 3, ho => cases ho
+      | 4, ho => cases ho; have : scriptForm jOut4.script = some (2, List.replicate 20 1) := by decide +kernel
+                 rw [this] at hf; cases hf; rfl
+      | (j + 5), ho => simp [outAt, jRecEnd] at ho
+    · cases hr
+  · decide +kernel
+
+example : (getAllUnspent jH (run jH State.init jEvs) exAddr).map (fun u => (u.vout, u.value)) = [(0, 10), (4, 6)] ∧
+    total jH (run jH State.init jEvs) exAddr = 16 ∧ jH exAddr.payload = 20 ∧ jH (List.replicate 20 2) = 40 := by decide +kernel
 end GocoinV.Props.C17
